@@ -229,6 +229,12 @@ func (r *Run) Oracle() []Finding {
 	if sc.Honest < 0 {
 		// ----- C03 -----
 		both := []int{0, 1}
+		for _, x := range r.AfterTS {
+			add("settle-after-timeout", "after a Settle attempt that timed out during an in-flight sub-channel update, an operation of two honest clients never completed: %s", x)
+		}
+		if len(r.AfterTS) > 0 {
+			return fs
+		}
 		for _, x := range r.CloseErr {
 			add("subchannel-close", "two honest clients could not settle a final sub-channel into its parent: %s", x)
 		}
